@@ -36,6 +36,31 @@ def after_lone_identifier_paren(ln, k):
     return k >= 4 and ln.lex[k - 2].t == ")" and ln.lex[k - 3].k in ("id", "type") and ln.lex[k - 4].t == "("
 
 
+def after_group_opening_with_pointer_cast(ln, k):
+    """is the operator at k (written ' op ') preceded by ')' closing a group '((T *)…' whose first element is a pointer cast to a
+    struct/union/typedef type?"""
+    if k < 2 or ln.lex[k - 2].t != ")":
+        return False
+    depth = 0
+    for j in range(k - 2, -1, -1):
+        t = ln.lex[j].t
+        if t == ")":
+            depth += 1
+        elif t == "(":
+            depth -= 1
+            if depth == 0:
+                nx = ln.lex[j + 1] if j + 1 < len(ln.lex) else None
+                if nx is None or "cast-open" not in nx.tags:
+                    return False
+                m = j + 2
+                words = []
+                while m < len(ln.lex) and "cast-close" not in ln.lex[m].tags:
+                    words.append(ln.lex[m])
+                    m += 1
+                return any(w.t == "*" for w in words) and any(w.k == "type" or w.t in ("struct", "union") for w in words)
+    return False
+
+
 def lead_tabs(ln):
     n = 0
     for x in ln.lex:
@@ -522,12 +547,19 @@ def F03(p):
                 if "func-name" in x.tags:
                     def ap(q, i=i, k=k):
                         t = q.lines[i].lex[k].t
+                        new = t
                         for n, c in enumerate(t):
                             if c.islower():
-                                q.lines[i].lex[k].t = t[:n] + c.upper() + t[n + 1:]
+                                new = t[:n] + c.upper() + t[n + 1:]
                                 break
+                        q.lines[i].lex[k].t = new
+                        for ln2 in q.lines:      # its forward declaration, if any, is the same (badly named) function
+                            for y in ln2.lex:
+                                if "forward-decl" in y.tags and y.t == t:
+                                    y.t = new
                         return i
-                    yield "funchead", ap
+                    fwd = any("forward-decl" in y.tags and y.t == x.t for ln2 in p.lines for y in ln2.lex)
+                    yield "funchead" + (":forward-declared" if fwd else ""), ap
 
 
 @op("F04", "SPACE_BEFORE_FUNC", ("c",))
@@ -958,9 +990,11 @@ def O02a(p):
                     del q.lines[i].lex[k + 1]
                     return i
                 pm_after_paren = ln.lex[k].t in ("+", "-", "*", "&") and ln.lex[k - 2].t == ")"
+                grp = not pm_after_paren and nxt.k != "un" and nxt.t != "NULL" and after_group_opening_with_pointer_cast(ln, k)
                 yield ("asg" if "asgop" in ln.lex[k].tags else "bin") + (":unary-next" if nxt.k == "un" else ":before-NULL" if nxt.t == "NULL" else
-                                                                       ":sign-after-parenthesised-expr" if pm_after_paren else ":plain") + \
-                    ("" if nxt.k == "un" or nxt.t == "NULL" or pm_after_paren else "@" + ln.kind), ap
+                                                                       ":sign-after-parenthesised-expr" if pm_after_paren else
+                                                                       ":after-group-opening-with-pointer-cast" if grp else ":plain") + \
+                    ("" if nxt.k == "un" or nxt.t == "NULL" or pm_after_paren or grp else "@" + ln.kind), ap
 
 
 @op("O02b", ("SPC_BFR_PAR", "SPC_AFTER_OPERATOR"))
